@@ -137,6 +137,11 @@ func FamilyMain(args []string) int {
 
 // EngineOpts parameterises one level-M round.
 type EngineOpts struct {
+	// Cancel: the context may be cancelled at any point (CancelLeavesNothing is checked; no
+	// fidelity runs).  BareSends: the pinned structure (bare inbox sends), where TLC is expected
+	// to find the blocked flow; its result is only recorded.
+	Cancel    bool
+	BareSends bool
 	Label    string
 	MaxFlows int
 	NWaiters int
@@ -181,11 +186,22 @@ func (c *Ctx) EngineRound(ps []*prog.Program, o EngineOpts) {
 		c.Infraf("engine %s: %v", o.Label, err)
 		return
 	}
-	consts := fmt.Sprintf("  ProgFile = %q\n  MaxFlows = %d\n  NWaiters = %d\n", progFile, o.MaxFlows, o.NWaiters)
-	cfg := "SPECIFICATION Spec\nCONSTANTS\n" + consts +
-		"INVARIANTS ETypeOK EngineWithinGame CeaseOnlyWhenComplete WaitTrueOnlyAfterCease QuiescentAgrees ParCounter NoInvalidState\nCHECK_DEADLOCK FALSE\n"
+	tf := map[bool]string{true: "TRUE", false: "FALSE"}
+	consts := fmt.Sprintf("  ProgFile = %q\n  MaxFlows = %d\n  NWaiters = %d\n  MayCancel = %s\n  CtxSends = %s\n", progFile, o.MaxFlows, o.NWaiters, tf[o.Cancel], tf[!o.BareSends])
+	invs := "ETypeOK EngineWithinGame CeaseOnlyWhenComplete WaitTrueOnlyAfterCease QuiescentAgrees ParCounter NoInvalidState"
+	if o.Cancel {
+		invs += " CancelLeavesNothing"
+	}
+	cfg := "SPECIFICATION Spec\nCONSTANTS\n" + consts + "INVARIANTS " + invs + "\nCHECK_DEADLOCK FALSE\n"
 	res, err := RunTLC(dir, "Engine", cfg, TLCOpts{Workers: o.Workers, Timeout: 25 * time.Minute})
-	em := map[string]any{"programs": len(fam), "max_flows": o.MaxFlows, "waiters": o.NWaiters}
+	em := map[string]any{"programs": len(fam), "max_flows": o.MaxFlows, "waiters": o.NWaiters, "cancel": o.Cancel}
+	if o.BareSends {
+		// the pinned structure: only what TLC finds is recorded
+		if err == nil {
+			c.Extra["engine_level_M:"+o.Label] = map[string]any{"programs": len(fam), "pinned_structure_counterexample_found_by_TLC": res.Violated, "states": res.Distinct}
+		}
+		return
+	}
 	if err != nil {
 		c.Infraf("Engine.tla (%s): %v", o.Label, err)
 	} else {
@@ -199,6 +215,10 @@ func (c *Ctx) EngineRound(ps []*prog.Program, o EngineOpts) {
 			em["violated"] = res.Violated
 			c.Infraf("Engine.tla (%s): invariant %s is violated in the model (a counterexample of the design; it counts only if a real execution reproduces it at level P):\n%s", o.Label, res.Violated, tail(res.Out, 1500))
 		}
+	}
+	if o.Cancel {
+		c.Extra["engine_level_M:"+o.Label] = em
+		return
 	}
 	// fidelity: record real runs, validate their own trace stream against the model
 	var scheds []drive.Schedule
